@@ -110,6 +110,15 @@ def divide (O : FloatOps F C) (a b : NNum F C) : NNum F C :=
   | some x, some y => if y ≠ 0 then .rat (x / y) else inexactDiv O a b
   | _, _ => inexactDiv O a b
 
+/-- `x ^ e` in ℚ for an integer exponent, in executable form: for the bases 0, 1, −1 the value is
+read off the exponent's sign / parity (so exponents of any size can be evaluated); otherwise it is
+core's `x ^ e`.  `qpow x e = x ^ e` for all `x`, `e` is proved in Theorems/C07.lean (`qpow_eq`). -/
+def qpow (x : Rat) (e : Int) : Rat :=
+  if x = 0 then (if e = 0 then 1 else 0)
+  else if x = 1 then 1
+  else if x = -1 then (if e % 2 = 0 then 1 else -1)
+  else x ^ e
+
 /-- `^`: exact for an exact base and an integer exponent (`0 ^ negative` is `1/0`, float +∞);
 everything else is float / complex exponentiation, which the property does not constrain — the
 Spec defers to the code's dispatch there -/
@@ -117,8 +126,8 @@ def power (O : FloatOps F C) (a b : NNum F C) : NNum F C :=
   match exact a, b with
   | some x, .int e =>
     if x = 0 ∧ e < 0 then .float O.posInf
-    else if a.level = 0 ∧ 0 ≤ e then .int (x ^ e).floor
-    else .rat (x ^ e)
+    else if a.level = 0 ∧ 0 ≤ e then .int (qpow x e).floor
+    else .rat (qpow x e)
   | _, _ => NNum.powNum O a b
 
 def binop (O : FloatOps F C) (op : String) (a b : NNum F C) : Out (NNum F C) :=
